@@ -105,14 +105,87 @@ def one_chain(t, res, seq=None, pos=0):
         res.fail(f"{key}|nonuniform", f"tree bits={worst[1]} has absorption probability off by {worst[0]} from 1/{N}; range [{min(pv)}, {max(pv)}]", base)
 
 
+# ------------------------------------------------------------------ seeding: the tree drawn is a function of the NumPy seed alone
+SEED_SHAPES = [((2, 2), 64), ((2, 3), 256), ((3, 3), 1536)]
+
+
+def seed_task(t, res):
+    """"for every seed of the underlying RNG": with the real PRNG, for every seed in a range, the tree drawn right after
+    np.random.seed(s) must not depend on anything else that happened in the process (other generators' draws, python's random, the
+    module-level Generator, earlier mazes), must be the same in a forked child, and over the range every spanning tree must occur."""
+    import os
+    import random
+
+    import maze_dataset.generation.generators as GG
+    from maze_dataset.generation.generators import LatticeMazeGenerators as G
+
+    (r, c), n_seeds = tuple(t["shape"]), t["n_seeds"]
+    trees = set(R.trees(r, c))
+    base = dict(seeding=True, shape=[r, c], n_seeds=n_seeds)
+    key = f"C19|gen_wilson|{r}x{c}|seeding"
+
+    def draw(s):
+        np.random.seed(s)
+        return R.bits_of(G.gen_wilson(np.array((r, c))).connection_list)
+
+    first = [draw(s) for s in range(n_seeds)]
+    res.ev(n_seeds)
+    # again, in reverse seed order, after unrelated use of every other random source
+    for s in range(n_seeds - 1, -1, -1):
+        random.random()
+        GG.numpy_rng.random(2)
+        np.random.rand(3)
+        res.ev()
+        if draw(s) != first[s]:
+            res.fail(f"{key}|not_a_function_of_the_seed", f"gen_wilson({r},{c}) right after np.random.seed({s}) gave tree bits={first[s]} the first time and another tree "
+                     f"after unrelated draws from python's random, the module-level Generator and np.random", base)
+            break
+    # in a forked child (copy of this process) the same seeds give the same trees
+    rfd, wfd = os.pipe()
+    pid = os.fork()
+    if pid == 0:
+        try:
+            os.close(rfd)
+            out = [draw(s) for s in range(0, n_seeds, 7)]
+            os.write(wfd, (",".join(map(str, out))).encode())
+        finally:
+            os._exit(0)
+    os.close(wfd)
+    buf = b""
+    while True:
+        b = os.read(rfd, 65536)
+        if not b:
+            break
+        buf += b
+    os.close(rfd)
+    os.waitpid(pid, 0)
+    res.ev()
+    child = [int(x) for x in buf.decode().split(",")] if buf else []
+    if child != [first[s] for s in range(0, n_seeds, 7)]:
+        res.fail(f"{key}|differs_in_forked_child", f"gen_wilson({r},{c}) after np.random.seed(s) gives other trees in a forked child than in the parent", base)
+    got = set(first)
+    res.ev()
+    if got - trees:
+        res.fail(f"{key}|nontree", f"non-tree outputs for some seeds: {sorted(got - trees)[:3]}", base)
+    if trees - got:
+        res.fail(f"{key}|trees_never_drawn", f"{len(trees - got)} of {len(trees)} spanning trees are not drawn for any seed in 0..{n_seeds - 1} "
+                 f"({len(got)} distinct outputs)", base)
+    for b in got:
+        res.nontrivial(("seed", r, c, b))
+    res.count("seeded_draws", 2 * n_seeds)
+
+
 def run(ctx):
     tasks = [dict(shape=s, tier=ctx.tier) for s in shapes(ctx.tier)]
     ctx.pmap("mzcheck.checks.c19", "task", tasks)
     ctx.pmap("mzcheck.checks.c19", "task", [dict(sequence=q, tier=ctx.tier) for q in SEQUENCES], fresh=True)
+    ctx.pmap("mzcheck.checks.c19", "seed_task", [dict(shape=sh, n_seeds=n) for sh, n in SEED_SHAPES], fresh=True)
     c = ctx.res.counters
     ctx.coverage.update(states=c.get("states", 0), transitions=c.get("transitions", 0),
                         traces_validated_against_impl=c.get("executions", 0),
                         chains=sorted(ctx.res.sets.get("chains", ())), sequences_in_one_interpreter=[[list(x) for x in q] for q in SEQUENCES],
+                        seeding=dict(shapes=[[list(sh), n] for sh, n in SEED_SHAPES], draws=c.get("seeded_draws", 0),
+                                     what="real PRNG: tree after np.random.seed(s) for every s in the range, twice (other RNG use in between), in a forked child; every tree occurs"),
                         chains_in_sequences=len(ctx.res.sets.get("chains_in_sequences", ())), unowned_draws=c.get("unowned_draws", 0),
                         capped=c.get("capped_tasks", 0) > 0)
     ctx.rule = ("complete reachable program-state graph of gen_wilson per grid shape; each edge = one answer of one uniform RNG primitive; "
@@ -123,6 +196,9 @@ def run(ctx):
 
 
 def replay(d, res):
+    if d.get("seeding"):
+        seed_task(dict(shape=d["shape"], n_seeds=d["n_seeds"]), res)
+        return
     if d.get("sequence"):
         task(dict(sequence=[tuple(x) for x in d["sequence"]], tier=d.get("tier", "quick")), res)
         return
